@@ -1,13 +1,179 @@
 (** C15 — the representation-metadata cache never changes what is served.
-    Only statements; every proof is [exact <lemma>] (lemmas in theories/CacheProofs.v). *)
-From Verif Require Import GoSem Timeline Cache CacheProofs.
+    Only statements; every proof is [exact <lemma>] (lemmas in theories/CacheProofs.v,
+    CacheSimProofs.v, CacheTop.v, CacheWitness.v).  Model: theories/Cache.v.
+    [enc]/[dec] stand for json.Marshal+gzip.Writer and gzip.Reader+json.Unmarshal; the only thing
+    assumed about them is [dec (enc s) = Some s]. *)
+From Verif Require Import GoSem Timeline Cache CacheProofs CacheSimProofs CacheTop CacheWitness CorrC15.
+
+Section C15.
+Variable B : Type.
+Variable enc : stored -> B.
+Variable dec : B -> option stored.
+Hypothesis dec_enc : forall s, dec (enc s) = Some s.
+
+(** Same tables: reading back the file that write mode stores for a scanned representation gives
+    exactly the scanned representation without the (never used) CommonSampleDur of its segments:
+    the stored fields, and hence the table handed to the serving code, are the same. *)
+Theorem C15_same_tables : forall m r,
+  scan_rep m = Ok r -> init_ts_ok m ->
+  load_json B dec (enc (to_stored r)) (m_init m) = Ok (stored_fields r) /\
+  to_stored (stored_fields r) = to_stored r /\ trep (stored_fields r) = trep r.
+Proof.
+  exact (fun m r Hs Ht => conj (load_json_of_scan B enc dec dec_enc m r Hs Ht)
+                               (conj (to_stored_stored_fields r) (trep_stored_fields r))).
+Qed.
+
+(** Same served assets, for every asset layout and every good cache directory (every file absent
+    or as written by write mode for the same files - present, absent, partially present): the
+    cache-started server registers and admits the same assets with the same stored fields,
+    LoopDurMS, SegmentDurMS, reference and MPD list as the scanning server; start-up errors and
+    panics coincide; the directory is not modified. *)
+Theorem C15_same_responses : forall l c c0,
+  cache_good B enc c l ->
+  all_rel B c c0 (discover B enc dec mode_read l c) (discover B enc dec mode_scan l c0).
+Proof. exact (discover_cache_eq_scan B enc dec dec_enc). Qed.
+
+(** Write mode itself serves what scan mode serves. *)
+Theorem C15_write_mode_same : forall l c c0,
+  two_all_rel B (fun _ _ => True) (discover B enc dec mode_write l c) (discover B enc dec mode_scan l c0).
+Proof. exact (write_eq_scan B enc dec). Qed.
+
+(** End to end: write mode over an empty directory, then cache mode over what it left or any
+    subset of it (shared or separate root makes no difference to the loader). *)
+Theorem C15_cache_after_write : forall (D : string -> string -> mpd_rep) l A cw c c0,
+  consistent D l ->
+  Forall (mpd_occ (fun _ m => init_ts_ok m)) l ->
+  discover B enc dec mode_write l (fun _ _ => CAbsent) = Ok (A, cw) ->
+  (forall a id, c a id = CAbsent \/ c a id = cw a id) ->
+  all_rel B c c0 (discover B enc dec mode_read l c) (discover B enc dec mode_scan l c0).
+Proof. exact (cache_after_write_eq_scan B enc dec dec_enc). Qed.
+
+(** Idempotence: a second write-mode start leaves every cache file as the first one wrote it and
+    serves the same assets. *)
+Theorem C15_idempotent : forall l c assets c1,
+  discover B enc dec mode_write l c = Ok (assets, c1) ->
+  exists c2, discover B enc dec mode_write l c1 = Ok (assets, c2) /\ forall a id, c2 a id = c1 a id.
+Proof. exact (write_idempotent B enc dec). Qed.
+
+(** ... and a representation loaded from a file is written back as the same file. *)
+Theorem C15_idempotent_file : forall r, enc (to_stored (stored_fields r)) = enc (to_stored r).
+Proof. exact (fun r => f_equal enc (to_stored_stored_fields r)). Qed.
+
+(** Admission, for every asset served in any mode: the reference representation lasts exactly
+    LoopDurMS milliseconds (1000*D = loopMS*ts in exact arithmetic whenever the int64 products do
+    not overflow) and every representation of the reference content type lasts LoopDurMS ms. *)
+Theorem C15_admission : forall md l c A c' p a,
+  discover B enc dec md l c = Ok (A, c') -> In (p, a) A ->
+  exists k ref,
+    a_ref a = Some k /\ lookup k (a_reps a) = Some ref /\
+    dur_ms ref = Ok (a_loop a) /\
+    (admission_range ref -> 1000 * rduration (r_segs ref) = a_loop a * r_mediats ref) /\
+    (forall k' r, In (k', r) (a_reps a) -> (r_ctype r = r_ctype ref \/ r_preenc r = true) -> dur_ms r = Ok (a_loop a)).
+Proof. exact (served_asset_admission B enc dec). Qed.
+
+End C15.
+
+(** A loop that is not a whole number of milliseconds is left out. *)
+Theorem C15_admission_not_whole_ms : forall a k ref,
+  reference_rep a = Some k -> lookup k (a_reps a) = Some ref ->
+  admission_range ref ->
+  Z.rem (1000 * rduration (r_segs ref)) (r_mediats ref) <> 0 ->
+  consolidate a = Ok None.
+Proof. exact not_whole_ms_left_out. Qed.
+
+(** The admission equation is the [wf_loop] hypothesis of the timeline theorems (C01 ...). *)
+Theorem C15_admission_is_wf_loop : forall r,
+  r_segs r <> [] -> 0 <= repDuration (trep r) < two63 ->
+  rduration (r_segs r) = repDuration (trep r).
+Proof. exact rduration_repDuration. Qed.
 
 (** $Number$ tables are contiguous by construction, for every list of file observations
     (missing, undecodable, gaps or overlaps between the files, any start/end number), as long as
-    the uint32 segment number does not wrap. *)
+    the uint32 segment number does not wrap (when it wraps the loader reports an error). *)
 Theorem C15_contiguous_number : forall thumb files sn en dsd segs dsd',
   0 <= match sn with Some n => n | None => 1 end ->
   match sn with Some n => n | None => 1 end + lenZ files <= two32 ->
   load_number thumb files sn en dsd = Ok (segs, dsd') -> contiguous (map tseg segs).
 Proof. exact load_number_contig. Qed.
+
+(** ... hence the served table of every scanned $Number$ representation, and of every one loaded
+    from the file written for it. *)
+Theorem C15_contiguous_number_served : forall m r r',
+  scan_rep m = Ok r -> rep_sim r' r -> m_timeline m = None ->
+  0 <= match m_startnr m with Some n => n | None => 1 end ->
+  match m_startnr m with Some n => n | None => 1 end + lenZ (m_files m) <= two32 ->
+  contiguous (segs (trep r')).
+Proof. exact cached_rep_number_contig. Qed.
+
+(** $Time$ tables are the files' own (start, end) rows: contiguous iff the files are.  Nothing is
+    adjusted, nothing is checked. *)
+Theorem C15_contiguous_time : forall tfile es dsd segs dsd',
+  time_loop tfile es 0 dsd [] = Ok (segs, dsd') ->
+  exists rows, file_table (map tfile (visits es 0)) dsd = Some (rows, dsd') /\ segs = rows /\
+               (ccontig segs <-> ccontig rows).
+Proof. exact time_table_contig_iff. Qed.
+
+(** Refuted: "every served table is contiguous" fails for $Time$ representations whose files have a gap. *)
+Theorem C15_contiguous_time_refuted :
+  exists tfile es segs dsd', time_loop tfile es 0 40 [] = Ok (segs, dsd') /\ ~ ccontig segs.
+Proof. exact time_gap_is_served. Qed.
+
+(** Refuted: with an unreadable cache file the cache-started server does not serve what the
+    scanning server serves.  testpic_2s in miniature, V300_data.json.gz unreadable: served with A48
+    only (reference A48) although the registered MPD lists V300; the scanning server serves both. *)
+Theorem C15_partial_asset_refuted :
+  served_ids (discover stored enc0 dec0 mode_read w_l w_cache_broken)
+    = [("testpic_2s", ["Manifest.mpd"], ["A48"], Some "A48", 8000)] /\
+  served_ids (discover stored enc0 dec0 mode_scan w_l (fun _ _ => CAbsent))
+    = [("testpic_2s", ["Manifest.mpd"], ["A48"; "V300"], Some "V300", 8000)].
+Proof. exact (conj w_served_broken w_served_scan). Qed.
+
+(** Refuted, other direction: an asset that scanning leaves out (two video representations of 8 s
+    and 6 s) is served when the cache file of one of them is unreadable. *)
+Theorem C15_partial_asset_admits_refuted :
+  discover stored enc0 dec0 mode_scan w_l2 (fun _ _ => CAbsent) = Ok ([], fun _ _ => CAbsent) /\
+  served_ids (discover stored enc0 dec0 mode_read w_l2 w_cache2_broken)
+    = [("testpic_2s", ["Manifest.mpd"], ["V300"], Some "V300", 8000)].
+Proof. exact (conj w_differ_scan w_differ_broken). Qed.
+
+(** Refuted: "representations that disagree in duration are left out" holds for the reference
+    content type only: video 8 s with a text representation of 6 s is admitted. *)
+Theorem C15_admission_other_types_refuted :
+  served_ids (discover stored enc0 dec0 mode_scan w_l3 (fun _ _ => CAbsent))
+    = [("vt", ["Manifest.mpd"], ["V300"; "T1"], Some "V300", 8000)] /\
+  exists r, scan_rep w_t1 = Ok r /\ dur_ms r = Ok 6000.
+Proof. exact (conj w_text_shorter_admitted w_text_shorter_duration). Qed.
+
+(** The hypothesis [init_ts_ok] of C15_same_tables is needed: with an init timescale of 0 the
+    cache path resets DefaultSampleDuration. *)
+Theorem C15_same_tables_ts0_refuted :
+  exists r r', scan_rep w_ts0 = Ok r /\ load_json stored dec0 (enc0 (to_stored r)) (m_init w_ts0) = Ok r' /\
+               r_dsd r = 3000 /\ r_dsd r' = 0.
+Proof. exact w_ts0_differs. Qed.
+
+(** Non-vacuity: the directory written for the miniature testpic_2s is good, and the cache-started
+    server serves the asset with both representations, reference V300, loop 8000 ms. *)
+Example C15_example :
+  cache_good stored enc0 w_cache w_l /\
+  served_ids (discover stored enc0 dec0 mode_read w_l w_cache)
+    = [("testpic_2s", ["Manifest.mpd"], ["A48"; "V300"], Some "V300", 8000)].
+Proof. exact (conj w_cache_good w_served_cache). Qed.
+
+Print Assumptions C15_same_tables.
+Print Assumptions C15_same_responses.
+Print Assumptions C15_write_mode_same.
+Print Assumptions C15_cache_after_write.
+Print Assumptions C15_idempotent.
+Print Assumptions C15_idempotent_file.
+Print Assumptions C15_admission.
+Print Assumptions C15_admission_not_whole_ms.
+Print Assumptions C15_admission_is_wf_loop.
 Print Assumptions C15_contiguous_number.
+Print Assumptions C15_contiguous_number_served.
+Print Assumptions C15_contiguous_time.
+Print Assumptions C15_contiguous_time_refuted.
+Print Assumptions C15_partial_asset_refuted.
+Print Assumptions C15_partial_asset_admits_refuted.
+Print Assumptions C15_admission_other_types_refuted.
+Print Assumptions C15_same_tables_ts0_refuted.
+Print Assumptions C15_example.
